@@ -56,3 +56,41 @@ Print Assumptions C02_process_ok_implies_pec.
 Print Assumptions C02_bad_pec_inert.
 Print Assumptions C02_burst_never_accepted.
 Print Assumptions C02_burst_process_inert.
+
+(* (6) bursts, stated on bit positions.  Bits are numbered MSB-first across the byte string: bit i lives in byte
+   i/8 at mask 0x80 >> (i mod 8) (`ebit`, BurstBits.v).  `confined8 e k`: every set bit of e lies in the eight
+   consecutive positions k .. k+7; `nonzero e`: some bit is set.  No corruption of an accepted packet confined
+   to eight consecutive bits is ever accepted... *)
+Require Import BurstBits.
+
+Theorem C02_confined8_is_burst : forall e k, bytes_ok e -> nonzero e -> confined8 e k -> burst e.
+Proof. exact confined8_burst. Qed.
+
+Theorem C02_confined8_burst_never_accepted : forall p d e k, bytes_ok p -> decode_packet p = Val (inl d) ->
+  bytes_ok e -> length e = length p -> nonzero e -> confined8 e k ->
+  forall d', decode_packet (xorl p e) <> Val (inl d').
+Proof. exact C02_confined_burst_never_accepted. Qed.
+
+(* ... and processing the corrupted packet changes nothing and does not return Ok *)
+Theorem C02_confined8_burst_process_inert : forall ovf c p e k buf d, bytes_ok p -> decode_packet p = Val (inl d) ->
+  bytes_ok e -> length e = length p -> nonzero e -> confined8 e k ->
+  exists r, process_packet ovf c (xorl p e) buf = ((c, buf), r) /\ forall x, r <> Val (inl x).
+Proof. exact C02_confined_burst_process_inert. Qed.
+
+(* non-vacuity: the pattern 0x03 0xC0 in bytes 2/3 has its four set bits at positions 22..25, inside the window
+   22..29 (and inside no window starting after 22 or before 18); it is the 5-bit-wide burst of C02_nonvacuous
+   when placed at bytes 10/11 of that packet, confined to the window starting at bit 86 *)
+Example C02_confined8_example :
+  confined8b [0;0;3;192;0] 22 = true /\ nonzerob [0;0;3;192;0] = true /\
+  map (ebit [0;0;3;192;0]) (seq 20 8) = [false;false;true;true;true;true;false;false] /\
+  confined8b [0;0;3;192;0] 18 = true /\ confined8b [0;0;3;192;0] 17 = false /\ confined8b [0;0;3;192;0] 23 = false /\
+  confined8b [0;0;0;0;0;0;0;0;0;0;3;0xE0;0;0] 86 = true /\ nonzerob [0;0;0;0;0;0;0;0;0;0;3;0xE0;0;0] = true.
+Proof. vm_compute. repeat split; reflexivity. Qed.
+
+Example C02_confined8_example_prop : confined8 [0;0;3;192;0] 22 /\ nonzero [0;0;3;192;0].
+Proof. split; [apply confined8b_sound|apply nonzerob_sound]; vm_compute; reflexivity. Qed.
+
+Print Assumptions C02_confined8_is_burst.
+Print Assumptions C02_confined8_burst_never_accepted.
+Print Assumptions C02_confined8_burst_process_inert.
+Print Assumptions C02_confined8_example_prop.
